@@ -441,4 +441,15 @@ theorem aggDataTupleIn_ok (strs : List (String × Nat)) (ints : List Nat) (ts : 
       | some c => simp [aggDataIn, hr]; rfl
 
 
+/-! concrete values for the non-vacuity examples of Props/C17 -/
+def exX : Ext := ⟨fun t => some (t.map Char.toNat), fun b => some b, fun _ _ _ => some 7⟩
+def exD : WDArr :=
+  { intent := 1008, datatype := 8, indOrd := 1, encoding := 2, «endian» := 2, dims := [2], extFname := [], extOffset := 0,
+    dmeta := [("k<".toList, "v&é".toList)],
+    coordsys := { dataspace := 0, xformspace := 3, matrixText := "1 0\n0 1".toList },
+    dataText := writeDataBlock (fun b => b.map Char.ofNat) id false false 4 false [2] [1, 4294967295] }
+def exW : WImg :=
+  { version := "1.0".toList, gmeta := [("a b".toList, []), ("日".toList, "<x>".toList)],
+    labels := [{ key := 3, label := "l&".toList, red := some "0.5".toList }], darrays := [exD] }
+
 end Nb.C17
